@@ -346,6 +346,16 @@ func (x *exec) assumeVal(st *State, v Val, t types.Type) {
 		st.assume(Le(sv.Len, sv.Cap))
 		st.assume(Implies(Eq(sv.Arr, Zero), Eq(sv.Cap, Zero)))
 	}
+	if tv, ok := v.(TupleV); ok {
+		if tt, isT := t.(*types.Tuple); isT && tt.Len() == len(tv) {
+			for _, e := range tv {
+				if sv, isS := e.(*SliceV); isS {
+					st.assume(Le(sv.Len, sv.Cap))
+					st.assume(Implies(Eq(sv.Arr, Zero), Eq(sv.Cap, Zero)))
+				}
+			}
+		}
+	}
 }
 
 // freshVal makes an unconstrained value of Go type t (with its type invariant assumed).
